@@ -41,11 +41,18 @@ pub fn check_case(ctx: &Ctx, st: &mut Stats, c: &Case, tag: &str) {
     let output = dir.join(super::common::hostile_file_name(c.csv.len(), "out.txt"));
     let plan = super::common::plan_input(c.io, &dir, "graph.csv", c.csv.as_bytes());
     let mut args: Vec<String> = Vec::new();
-    if c.undirected {
-        args.push("-u".into());
-    }
-    if c.all {
-        args.push("-a".into());
+    // short, long and clustered spellings
+    match (c.undirected, c.all, c.csv.len() % 3) {
+        (true, true, 0) => args.push("-ua".into()),
+        (true, true, 1) => args.push("-au".into()),
+        (u, a, k) => {
+            if u {
+                args.push(if k == 2 { "--undirected" } else { "-u" }.into());
+            }
+            if a {
+                args.push(if k == 2 { "--all" } else { "-a" }.into());
+            }
+        }
     }
     if let Some(p) = &plan.path_arg {
         args.push(p.clone());
@@ -199,10 +206,12 @@ fn all_digraphs(nv: usize) -> Vec<Vec<(usize, usize)>> {
     (0..(1u64 << pairs.len())).map(|m| pairs.iter().enumerate().filter(|(i, _)| (m >> i) & 1 == 1).map(|(_, p)| *p).collect()).collect()
 }
 
-const NAME_SETS: [[&str; 8]; 12] = [
+const NAME_SETS: [[&str; 8]; 13] = [
     // names that differ only in case (ASCII and not)
     ["a", "A", "b", "B", "ab", "Ab", "aB", "AB"],
     ["é", "É", "ß", "ss", "ı", "i", "I", "İ"],
+    // identifiers a CSV reader may take for a header / keyword
+    ["from", "to", "source", "target", "id", "header", "null", "NaN"],
     ["a", "b", "c", "d", "e", "f", "g", "h"],
     ["x1", "y_2", "z'", "w", "q9", "_u", "k", "m2"],
     ["é", "λ", "中", "ñ", "ß", "ö", "ü", "å"],
